@@ -115,6 +115,16 @@ func cmdCheck(args []string) int {
 		fmt.Fprintf(os.Stderr, "%s: %v\n", cfgPath, err)
 		return 2
 	}
+	// selftest mode: the tree under test is a scratch copy of /repo (GOVC_REPO) carrying a corpus patch; nothing is
+	// written under /verif (no evidence, replays or baselines)
+	selftest := os.Getenv("GOVC_SELFTEST") != ""
+	if alt := os.Getenv("GOVC_REPO"); alt != "" {
+		for i := range cfg.Modules {
+			if cfg.Modules[i].Dir == "/repo" || strings.HasPrefix(cfg.Modules[i].Dir, "/repo/") {
+				cfg.Modules[i].Dir = alt + strings.TrimPrefix(cfg.Modules[i].Dir, "/repo")
+			}
+		}
+	}
 	timeout := 10 * time.Second
 	retry := 60 * time.Second
 	if *tier == "thorough" {
@@ -379,6 +389,10 @@ func cmdCheck(args []string) int {
 			}
 		}
 		violations++
+		if selftest {
+			violationLines = append(violationLines, fmt.Sprintf("SELFTEST-VIOLATION property=%s obligation=%s reason=%s", cfg.ID, f.Name, f.Reason))
+			continue
+		}
 		path := writeReplay(cfg.ID, f, *tier)
 		line := fmt.Sprintf("VIOLATION property=%s replay=%s obligation=%s reason=%s", cfg.ID, path, f.Name, f.Reason)
 		if !f.Replayed {
@@ -417,8 +431,10 @@ func cmdCheck(args []string) int {
 				fmt.Printf("baseline updated: %d obligations, %d covers\n", len(newBase.Obligations), len(newBase.Covers))
 			}
 		}
-		writeEvidence(&cfg, *tier, seed, runs, total, discharged, byBackend, solverTime, samples, coverLive, coverDead, knownLines,
-			violations, wall, contractFiles, axioms, unsup, notes, failures)
+		if !selftest {
+			writeEvidence(&cfg, *tier, seed, runs, total, discharged, byBackend, solverTime, samples, coverLive, coverDead, knownLines,
+				violations, wall, contractFiles, axioms, unsup, notes, failures)
+		}
 	}
 	for _, l := range violationLines {
 		fmt.Println(l)
